@@ -256,7 +256,7 @@ class CharsetTokenizer(Tokenizer):
             pos = start_pos
             startchar = currentchar = start_char
             for char in value:
-                tchar = charmap[ord(char)]
+                tchar = charmap.get(ord(char))
                 if tchar:
                     text += tchar
                 else:
